@@ -113,6 +113,7 @@ const (
 	kError  // error interface holding parseError
 	kFunc
 	kBuf // []byte written in place: EncLow.Buf (logical bytes + stale capacity)
+	kMap   // map[K]V: Go.Map K V = Option (association list in iteration order); none = nil map
 	kFloat // float32/float64: the IEEE bit pattern (Nat); only moved around and passed to math.FloatNNbits/frombits
 	kOther
 )
@@ -121,6 +122,7 @@ type ltype struct {
 	k     lkind
 	bits  int
 	elem  *ltype
+	key   *ltype // map key type
 	name  string // struct: Go type name
 	lean  string // Lean type
 	array int    // >0: fixed-size array of that length (modelled as a list of that length)
@@ -165,6 +167,7 @@ type fnCfg struct {
 	extraArgs   string   // the corresponding arguments at call sites
 	rec         bool     // the function calls itself: it takes a fuel argument shared with its loops (mutual structural recursion)
 	callFuel    map[string]string // fuel expression for calls of recursive functions, by callee Go name
+	recvParam   string   // the parameter that plays the receiver (threaded through closures) instead of the Go receiver
 	auto        bool     // a helper without configuration, translated on demand with the defaults of its caller
 }
 
@@ -255,6 +258,19 @@ func (g *golite) ltypeOf(t types.Type) (ltype, error) {
 			return ltype{k: kList, elem: &e, lean: "Bytes", array: int(x.Len())}, nil
 		}
 		return ltype{k: kList, elem: &e, lean: "List " + paren(e.lean), array: int(x.Len())}, nil
+	case *types.Map:
+		k, err := g.ltypeOf(x.Key())
+		if err != nil {
+			return ltype{}, err
+		}
+		e, err := g.ltypeOf(x.Elem())
+		if err != nil {
+			return ltype{}, err
+		}
+		if k.k == kFloat || k.k == kList && k.elem != nil && k.elem.k != kByte {
+			return ltype{}, fmt.Errorf("unsupported map key type %s", x.Key().String())
+		}
+		return ltype{k: kMap, key: &k, elem: &e, lean: "Go.Map " + paren(k.lean) + " " + paren(e.lean)}, nil
 	case *types.Pointer:
 		return g.ltypeOf(x.Elem())
 	case *types.Signature:
